@@ -276,7 +276,9 @@ inline bool flush_S(Rng& r, uint64_t idx)
   g_inject = [&](int p, void const*, uint64_t)
   {
     if (bad || !inject_budget) return;
-    if (p == qv::BW_AFTER_CACHE_REFRESH && r.chance(1, 3))
+    // (the same race is also driven right before a system-clock read of the backend - the pass timestamp is one -
+    // a window that lies inside the function that reloads the thread list and has no call-out of its own)
+    if ((p == qv::BW_AFTER_CACHE_REFRESH && r.chance(1, 3)) || (p == kClockReadPoint && r.chance(1, 6)))
     {
       // the window between the backend's refresh of its thread list and the pass timestamp:
       // a thread logs for the first time, then an already known thread flushes, then time passes
@@ -422,11 +424,11 @@ inline bool order_S(Rng& r, uint64_t idx)
   g_inject = [&](int p, void const*, uint64_t)
   {
     if (!inject_budget) return;
-    if (!(p == qv::BW_AFTER_CACHE_REFRESH || p == qv::BW_BEFORE_READ_QUEUE || p == qv::BW_AFTER_DECODE_ONE || p == qv::BW_BATCH_NEXT || p == qv::BW_AFTER_POP)) return;
-    if (!r.chance(1, 5)) return;
+    if (!(p == qv::BW_AFTER_CACHE_REFRESH || p == qv::BW_BEFORE_READ_QUEUE || p == qv::BW_AFTER_DECODE_ONE || p == qv::BW_BATCH_NEXT || p == qv::BW_AFTER_POP || p == kClockReadPoint)) return;
+    if (!r.chance(1, p == kClockReadPoint ? 8 : 5)) return;
     --inject_budget;
     run.note('i', p);
-    uint64_t x = r.below(10);
+    uint64_t x = p == kClockReadPoint ? 7 : r.below(10); // right before a clock read of the backend: the first-time-logger race
     if (x < 5)
     {
       auto idle = run.idle_workers();
@@ -437,7 +439,7 @@ inline bool order_S(Rng& r, uint64_t idx)
       auto parked = run.parked_workers();
       if (!parked.empty()) run.resume(*parked[r.below(parked.size())]);
     }
-    else if (x < 8 && p == qv::BW_AFTER_CACHE_REFRESH && run.ws.size() < 9)
+    else if (x < 8 && (p == qv::BW_AFTER_CACHE_REFRESH || p == kClockReadPoint) && run.ws.size() < 9)
     {
       SW& a = run.spawn(); // first-time logger inside the refresh/timestamp window ...
       do_log(a, false);
